@@ -21,7 +21,7 @@ ASSUMPTIONS = ['vt.refsem truth tables; vt.wf']
 ALLOWED = {'INPUT', 'NOT', 'AND', 'OR', 'NAND', 'NOR', 'XOR', 'NXOR', 'IFF'}
 CONVERTIBLE = ['LT', 'LEQ', 'GT', 'GEQ', 'LIFF', 'RIFF', 'LNOT', 'RNOT', 'ALWAYS_TRUE', 'ALWAYS_FALSE']
 REQUIRED = {'mon:into_bench.checked': 200, 'mon:into_graphviz_digraph.checked': 20, 'with_blocks': 50,
-            'rewritten_in_block': 20, 'const_with_operands': 10, 'identical_operands': 10, 'reconverted_after_edit': 30}
+            'rewritten_in_block': 20, 'const_with_operands': 10, 'identical_operands': 10, 'reconverted_after_edit': 30, 'deep_circuits': 2}
 REQUIRED.update({'rewritten:' + t: 5 for t in CONVERTIBLE})
 
 CUR = {'ctx': None, 'case': None}
@@ -32,6 +32,9 @@ def shards(tier, seed):
     budget = 40 if tier == 'quick' else 500
     _out = [{'kind': 'random', 'count': per, 'budget_s': budget, 'max_g': 12 if tier == 'quick' else 30}
             for _ in range(16)]
+    # long dependency chains (ripple / iterated constructions), far beyond the interpreter's recursion limit
+    _out.append({'kind': 'deep', 'count': 3 if tier == 'quick' else 40, 'budget_s': budget,
+                 'depths': [1200, 2500, 4000] if tier == 'quick' else [900, 1000, 1100, 1500, 3000, 6000, 12000]})
     if tier == 'thorough':
         _out.append({'kind': 'suite', 'select': ['tests/cirbo/core'], 'budget_s': 900})
     return _out
@@ -149,7 +152,11 @@ def install(ctx):
 
 def check_case(case, ctx):
     CUR['case'] = case
-    net = netgen.from_description(case['net'])
+    if case.get('kind') == 'deep':
+        net = netgen.deep_net(random.Random(case['dseed']), case['depth'], types=DEEP_TYPES)
+        ctx.count('deep_circuits')
+    else:
+        net = netgen.from_description(case['net'])
     rng = random.Random(case['rseed'])
     with monitor.suspended():
         try:
@@ -209,10 +216,21 @@ def check_case(case, ctx):
             except Exception as e:
                 ctx.unexpected('Circuit.into_bench', e, case)
     ctx.case(refsem.structural_hash(net) + repr(sorted(case.get('blocks', {}))), will_rewrite, cls='shape:' + case['shape'],
-             sample={'net': case['net'], 'blocks': case.get('blocks', {})} if will_rewrite else None)
+             sample=({'deep_chain_depth': case['depth'], 'gates': len(net.gates)} if case.get('kind') == 'deep' else
+                     {'net': case['net'], 'blocks': case.get('blocks', {})}) if will_rewrite else None)
+
+
+DEEP_TYPES = ['AND', 'OR', 'XOR', 'NOT', 'IFF', 'LT', 'LEQ', 'GT', 'GEQ', 'LIFF', 'RIFF', 'LNOT', 'RNOT', 'NAND']
+
+
+def gen_deep_case(rng, spec):
+    return {'kind': 'deep', 'shape': 'deep', 'depth': rng.choice(spec['depths']), 'dseed': rng.getrandbits(32),
+            'rseed': rng.getrandbits(32), 'shuffle': False, 'blocks': {}, 'graphviz': False, 'reconvert': False}
 
 
 def gen_case(rng, spec):
+    if spec.get('kind') == 'deep':
+        return gen_deep_case(rng, spec)
     shape = rng.choice(netgen.SHAPES + ['consts', 'dups'])
     types = None
     if rng.random() < 0.5:
